@@ -18,6 +18,7 @@ Scope as in C01Chain: one call covering one meta-block (`mb` = the `last_insert_
 the `num_bytes` of the block), NPOSTFIX = NDIRECT = 0.
 -/
 import BV.Lemmas.ZopfliExample
+import BV.Lemmas.ZopfliUpd3
 import BV.Props.C01MetaBlock
 
 namespace BV.Props.C01Zopfli
@@ -125,6 +126,73 @@ theorem path_commands_lockstep {K : Type} (p : Zopfli.Params) (large : Bool) (wo
   zopfli_commands_lockstep p large wo hist mb nodes' numBytes position cache lastInsertLen numLiterals res hnp hnd
     hwin hmd hstd hdist hlen hpos hmb hc hcl (shortest_path_nodesOK _ _ _ _ _ _ nodes nodes' _ cnt hall hsp) h
 
+/-! ### the dynamic programme (UpdateNodes): what is proved so far -/
+
+/-- **dp_commands_lockstep**: the invariant `DPInv` of the dynamic programme (BV/Lemmas/ZopfliInv.lean: every written
+node is `BackOK` with an evaluated start position, every stored `shortcut` means what `SC` says, untouched nodes
+carry the infinite cost) is the right one: whenever it holds for the array handed to
+`ComputeShortestPathFromNodes`, the commands are `cmdOK`, in `lockstep`, and replay to `hist ++ mb`. -/
+theorem dp_commands_lockstep {K : Type} (p : Zopfli.Params) (large : Bool) (wo : WordOracle) (hist mb : Bytes) (inf : K)
+    (nodes nodes' : Array (Node K)) (lim cnt numBytes position : Nat) (cache : List Int) (lastInsertLen numLiterals : Nat)
+    (res : CmdResult)
+    (hnp : p.npostfix = 0) (hnd : p.ndirect = 0)
+    (hwin : Zopfli.maxBackwardLimit p ≤ 2 ^ 30) (hmd : p.maxDistance + 15 < 2 ^ 31)
+    (hstd : large = false → Zopfli.maxBackwardLimit p ≤ 2 ^ 26 - 4) (hdist : large = false → p.maxDistance ≤ 2 ^ 26 - 4)
+    (hlen : mb.length ≤ 2 ^ 24)
+    (hpos : position = hist.length + lastInsertLen) (hmb : mb.length = lastInsertLen + numBytes)
+    (hc : CacheI32 cache) (hcl : 4 ≤ cache.length)
+    (hdp : DPInv ⟨wo, Zopfli.maxBackwardLimit p, p.maxDistance, hist ++ mb, position, numBytes, cache.take 4⟩ inf nodes lim)
+    (hsp : computeShortestPathFromNodes numBytes nodes = some (nodes', cnt))
+    (h : zopfliCreateCommands p.npostfix p.ndirect numBytes position (Zopfli.maxBackwardLimit p) nodes' cache
+      lastInsertLen numLiterals = some res) :
+    (∀ c ∈ closeMetaBlock res.cmds res.lastInsertLen, cmdOK (distAlphabetSize large 0 0) 0 0 c = true) ∧
+    lockstep wo 0 0 (Zopfli.maxBackwardLimit p) mb ⟨hist, cache.take 4, 0⟩ 0
+      (closeMetaBlock res.cmds res.lastInsertLen) = true ∧
+    replayCommands wo 0 0 (Zopfli.maxBackwardLimit p) mb (cache.take 4) hist
+      (closeMetaBlock res.cmds res.lastInsertLen) = some (hist ++ mb) :=
+  path_commands_lockstep p large wo hist mb nodes nodes' cnt numBytes position cache lastInsertLen numLiterals res hnp hnd
+    hwin hmd hstd hdist hlen hpos hmb hc hcl hdp.allBack hsp h
+
+/-- **cache_probes_sound_partial** — the sixteen distance-cache probes of `UpdateNodes` (`for j in 0..16`: the
+`i32` sum of a cache entry and the table offset, the wrap / window / continuation-byte filters,
+`FindMatchLengthWithLimit` against the ring, and the `for l in best_len+1..=len` loop writing nodes with short
+code `j + 1`) keep the invariant FOR EVERY COST ORACLE: whatever `ops.lt` answers, each node they write is a copy
+whose bytes agree in the text (`ring_match_is_text_match` over w-stream's ring view) and whose short code denotes
+its distance under the RFC rules relative to the ring at the start position (`zopfli_short_code`: Zopfli's table
+`kDistanceCacheIndex/Offset` = RFC 7932 symbols 0..15).
+PARTIAL: this is one layer of goal (2).  Proved besides it: `match_loop_sound_partial` (the matches of the match
+finder), `DPInv.write`, `shortest_path_nodesOK`, `dp_commands_lockstep`.  NOT proved: (a) the glue `candidate` /
+`UpdateNodes` around these two loops (the queue lookup `queue.at k` has the index `k.wrapping_sub(idx) & 7`; unfolding
+`candidate` makes the Lean KERNEL compare `k + 2^64` in successor form, i.e. count to 2^64 — a proof-engineering
+obstacle, not a doubt about the statement), (b) `EvaluateNode` (that `ComputeDistanceCache` returns the ring `RingAt`
+of the position — the meaning `SC` of the `shortcut` fields is defined, the lemma is not proved — and that
+`StartPosQueue::push` keeps the queue entries sound), (c) the outer loops (`BrotliZopfliComputeShortestPath`,
+`ZopfliIterate`, skip logic) and (d) `le(inf, literal cost) = false`, needed so that an untouched node never enters the queue. -/
+theorem cache_probes_sound_partial {K : Type} {C : ZC} {inf : K} {lim : Nat} {q : Queue K} {data : ByteArray} {k tail lo : Nat}
+    (hz : ZOK C data k tail lo) (ops : CostOps K) (m : CostModel K) (pos : Nat) (hlim : lim = pos + 1)
+    (hpos : pos ≤ C.numBytes) (pd : PosData K) (hpdq : ∀ nodes, Inv2 C inf lim q nodes → PDOK C nodes lim pd)
+    (inscode : Nat) (baseCost : K) (bestLen : Nat) (s s' : UN K) (hbl : 1 ≤ bestLen) (hinv : Inv2 C inf lim q s.nodes)
+    (h : cacheLoop ops m data (2 ^ k - 1) (C.base + pos) (min (C.base + pos) C.window) (wsub C.numBytes pos) pos pd.pos
+      inscode pd.cache baseCost 16 0 bestLen s = some s') :
+    Inv2 C inf lim q s'.nodes :=
+  cacheLoop_inv hz ops m pos hlim hpos pd hpdq inscode baseCost 16 0 bestLen s s' (by omega) hbl hinv h
+
+/-- **match_loop_sound_partial** — the match loop of `UpdateNodes` (`for j in 0..num_matches`: distance symbol
+cost, the `len = max_match_len` jump for dictionary / very long matches, `while len <= max_match_len` writing
+nodes without short code) keeps the invariant for every cost oracle and EVERY match list that is sound in the
+sense of `MatchOK` (a match within `min(position, window)` is a real match of its length in the text; a match
+beyond it is a dictionary reference the decoder's oracle expands to the next bytes): copies are written for
+every length up to the match length, dictionary references only with the match's own length.  PARTIAL: see
+`cache_probes_sound_partial`. -/
+theorem match_loop_sound_partial {K : Type} {C : ZC} {inf : K} {lim : Nat} {q : Queue K} {data : ByteArray} {k tail lo : Nat}
+    (hz : ZOK C data k tail lo) (ops : CostOps K) (m : CostModel K) (p : Zopfli.Params) (pos : Nat) (hlim : lim = pos + 1)
+    (pd : PosData K) (hpdq : ∀ nodes, Inv2 C inf lim q nodes → PDOK C nodes lim pd)
+    (inscode : Nat) (baseCost : K) (ms : List Match) (len : Nat) (s s' : UN K)
+    (hms : ∀ x ∈ ms, MatchOK C pos x) (hlen : 2 ≤ len) (hinv : Inv2 C inf lim q s.nodes)
+    (h : matchLoop ops m p (min (C.base + pos) C.window) pos pd.pos inscode baseCost ms len s = some s') :
+    Inv2 C inf lim q s'.nodes :=
+  matchLoop_inv hz ops m p pos hlim pd hpdq inscode baseCost ms len s s' hms hlen hinv h
+
 /-! ### non-vacuity (the concrete instance lives in BV/Lemmas/ZopfliZEx.lean) -/
 
 /-- a concrete node array meets every hypothesis of `zopfli_commands_lockstep`; the run emits one copy
@@ -160,5 +228,30 @@ example : ∃ nodes' cnt, computeShortestPathFromNodes 10 ZEx.nodesDP = some (no
     rw [hr] at hrun
     simp only [Option.map_some, Option.some.injEq] at hrun
     exact ⟨nodes', cnt, rfl, hrun, shortest_path_nodesOK _ _ _ _ _ _ _ _ _ _ ZEx.nodesDP_ok hr⟩
+
+/-- the invariant of the dynamic programme is satisfiable: the concrete array above (one written node whose start
+position 0 has been evaluated, `shortcut 0` stored at position 0, all other nodes untouched with the infinite cost)
+satisfies `DPInv` with one position evaluated -/
+example : DPInv ⟨fun _ _ _ => none, Zopfli.maxBackwardLimit ZEx.params, ZEx.params.maxDistance, [] ++ ZEx.text, 0, 10,
+    [4, 11, 15, 16]⟩ (0 : Nat) ZEx.nodesDP 1 := by
+  refine ⟨rfl, ⟨_, rfl, by unfold Node.isStub; decide⟩, ?_, ?_, ?_⟩
+  · intro e n he hle hn
+    rcases ZEx.nodesDP_get e n he hn with rfl | ⟨rfl, rfl⟩
+    · exact Or.inl ⟨by decide, by decide⟩
+    · rcases ZEx.nodesDP_ok 9 _ he hle hn with hs | hb
+      · exact Or.inl hs
+      · exact Or.inr ⟨hb, by decide⟩
+  · intro e n he hn _
+    have : e = 0 := by omega
+    subst this
+    have hn0 : n = ⟨0, 0, 0, .shortcut 0⟩ := by
+      have : ZEx.nodesDP[0]? = some ⟨0, 0, 0, .shortcut 0⟩ := rfl
+      rw [this] at hn; injection hn with hn; exact hn.symm
+    subst hn0
+    exact ⟨0, rfl, [], Hist.zero, Or.inl ⟨rfl, rfl⟩⟩
+  · intro e n he hn hs
+    rcases ZEx.nodesDP_get e n (by omega) hn with rfl | ⟨rfl, rfl⟩
+    · rfl
+    · exact absurd hs (by unfold Node.isStub; decide)
 
 end BV.Props.C01Zopfli
